@@ -49,8 +49,9 @@ package iterator
 //@ count iterator.IteratorSeeker.First
 //@ count iterator.IteratorSeeker.Last
 //@ func (*mergedIterator).Seek
-//@   props C02
+//@   props C02 C18
 //@   safety off
+//@   ensures [C02,C18:a-released-iterator-reports-that-it-was-released] (old(i.err) == nil && old(i.dir) == dirReleased) ==> (!result && i.err == ErrIterReleased)
 //@   loop 1
 //@     invariant [C02:every-source-so-far-was-positioned] calls("iterator.IteratorSeeker.Seek") >= old(calls("iterator.IteratorSeeker.Seek")) + rangeidx
 //@   at before call iterator.IteratorSeeker.Seek#*
@@ -60,8 +61,9 @@ package iterator
 //@   at before call heap.Init#1
 //@     assert [C02:every-source-was-positioned] calls("iterator.IteratorSeeker.Seek") >= old(calls("iterator.IteratorSeeker.Seek")) + len(i.iters)
 //@ func (*mergedIterator).First
-//@   props C02
+//@   props C02 C18
 //@   safety off
+//@   ensures [C02,C18:a-released-iterator-reports-that-it-was-released] (old(i.err) == nil && old(i.dir) == dirReleased) ==> (!result && i.err == ErrIterReleased)
 //@   at before call (*indexHeap).Reset#1
 //@     assert [C02:a-forward-move-orders-smallest-first] !arg0
 //@   loop 1
@@ -69,8 +71,9 @@ package iterator
 //@   at before call heap.Init#1
 //@     assert [C02:every-source-was-positioned] calls("iterator.IteratorSeeker.First") >= old(calls("iterator.IteratorSeeker.First")) + len(i.iters)
 //@ func (*mergedIterator).Last
-//@   props C02
+//@   props C02 C18
 //@   safety off
+//@   ensures [C02,C18:a-released-iterator-reports-that-it-was-released] (old(i.err) == nil && old(i.dir) == dirReleased) ==> (!result && i.err == ErrIterReleased)
 //@   at before call (*indexHeap).Reset#1
 //@     assert [C02:a-backward-move-orders-largest-first] arg0
 //@   loop 1
@@ -84,8 +87,9 @@ package iterator
 //@ count iterator.IteratorSeeker.Next
 //@ count iterator.IteratorSeeker.Prev
 //@ func (*mergedIterator).Next
-//@   props C02
+//@   props C02 C18
 //@   safety off
+//@   ensures [C02,C18:a-released-iterator-reports-that-it-was-released] (old(i.err) == nil && old(i.dir) == dirReleased) ==> (!result && i.err == ErrIterReleased)
 //@   at before call iterator.IteratorSeeker.Next#1
 //@     assert [C02:the-source-under-the-cursor-is-stepped] recv == i.iters[i.index]
 //@   at before call heap.Push#1
@@ -95,8 +99,9 @@ package iterator
 //@   at before call (*mergedIterator).Seek#1
 //@     assert [C02:turning-forward-starts-from-the-current-key] i.dir == dirBackward
 //@ func (*mergedIterator).Prev
-//@   props C02
+//@   props C02 C18
 //@   safety off
+//@   ensures [C02,C18:a-released-iterator-reports-that-it-was-released] (old(i.err) == nil && old(i.dir) == dirReleased) ==> (!result && i.err == ErrIterReleased)
 //@   loop 1
 //@     invariant [C02:every-other-source-so-far-was-sought] calls("iterator.IteratorSeeker.Seek") >= old(calls("iterator.IteratorSeeker.Seek")) + rangeidx - ((rangeidx > i.index) ? 1 : 0)
 //@   at before call (*indexHeap).Reset#1
@@ -115,8 +120,9 @@ package iterator
 // that is exhausted (or empty) is left - dropped - before the move goes on to the next or previous one, and the
 // previous one is entered at its last entry.
 //@ func (*indexedIterator).Seek
-//@   props C02
+//@   props C02 C18
 //@   safety off
+//@   ensures [C02,C18:a-released-iterator-reports-that-it-was-released] (old(i.err) == nil && old(i.BasicReleaser.released)) ==> (!result && i.err == ErrIterReleased)
 //@   at before call iterator.IteratorSeeker.Seek#1
 //@     assert [C02:the-index-is-sought-at-the-callers-key] sameslice(arg0, key) && recv == i.index
 //@   at before call iterator.IteratorSeeker.Seek#2
@@ -124,8 +130,9 @@ package iterator
 //@   at before call (*indexedIterator).Next#1
 //@     assert [C02:a-block-with-nothing-at-or-after-the-key-is-left-before-moving-on] i.data == nil
 //@ func (*indexedIterator).Last
-//@   props C02
+//@   props C02 C18
 //@   safety off
+//@   ensures [C02,C18:a-released-iterator-reports-that-it-was-released] (old(i.err) == nil && old(i.BasicReleaser.released)) ==> (!result && i.err == ErrIterReleased)
 //@   at before call iterator.IteratorSeeker.Last#1
 //@     assert [C02:the-index-goes-to-its-last-entry] recv == i.index
 //@   at before call iterator.IteratorSeeker.Last#2
@@ -133,8 +140,9 @@ package iterator
 //@   at before call (*indexedIterator).Prev#1
 //@     assert [C02:an-empty-last-block-is-left-before-moving-back] i.data == nil
 //@ func (*indexedIterator).Prev
-//@   props C02
+//@   props C02 C18
 //@   safety off
+//@   ensures [C02,C18:a-released-iterator-reports-that-it-was-released] (old(i.err) == nil && old(i.BasicReleaser.released)) ==> (!result && i.err == ErrIterReleased)
 //@   at before call iterator.IteratorSeeker.Prev#1
 //@     assert [C02:the-block-under-the-cursor-is-stepped-first] recv == i.data && i.data != nil
 //@   at before call iterator.IteratorSeeker.Prev#2
@@ -144,14 +152,16 @@ package iterator
 //@   at before call (*indexedIterator).Prev#1
 //@     assert [C02:an-empty-block-is-left-before-moving-further-back] i.data == nil
 //@ func (*indexedIterator).Next
-//@   props C02
+//@   props C02 C18
 //@   safety off
+//@   ensures [C02,C18:a-released-iterator-reports-that-it-was-released] (old(i.err) == nil && old(i.BasicReleaser.released)) ==> (!result && i.err == ErrIterReleased)
 //@   at before call iterator.IteratorSeeker.Next#1
 //@     assert [C02:the-block-under-the-cursor-is-stepped-first] recv == i.data && i.data != nil
 //@   at before call iterator.IteratorSeeker.Next#2
 //@     assert [C02:the-index-steps-on-only-with-no-block-in-hand] recv == i.index && i.data == nil
 //@ func (*indexedIterator).First
-//@   props C02
+//@   props C02 C18
 //@   safety off
+//@   ensures [C02,C18:a-released-iterator-reports-that-it-was-released] (old(i.err) == nil && old(i.BasicReleaser.released)) ==> (!result && i.err == ErrIterReleased)
 //@   at before call iterator.IteratorSeeker.First#1
 //@     assert [C02:the-index-goes-to-its-first-entry] recv == i.index
